@@ -270,11 +270,16 @@ LOGIC_CELLS = {
     'Z1': '=AND(B1:B4)', 'Z2': '=OR(B1:B4)', 'Z3': '=IF(AND(B1:B4),"all",IF(OR(B1:B4),"some","none"))', 'Z4': '=AND(A1:A3)', 'Z5': '=OR(A2,B4)',
     'L1': '=IF(A1>0,1,NOSUCHFUNC(1))', 'L2': '=IF(A2>0,NOSUCHFUNC(1),2)', 'L3': '=IF(A1>0,A1,L3)', 'L4': '=IF(A2,1/0,"ok")', 'L5': '=IF(A1,"t")',
     'L6': '=IF(A2,"t")', 'L7': '=IF(B4,"t","blank is false")', 'L8': '=IF(NOT(0),IF(AND(1,OR(0,A3)),"in","out"),"never")', 'L9': '=IF(A2,L9,IF(A1,"x",L9))',
+    # branches that are not selected may call anything - however the name of the unknown function is spelt
+    'U1': '=IF(TRUE,"good",_xlfn.XLOOKUP(1,A1:A3,A1:A3))', 'U2': '=IF(A2,_xlfn.LET(x,1,x+1),"good")', 'U3': '=AND(FALSE,_xlfn.NOSUCHFUNCTION(1))',
+    'U4': '=OR(TRUE,_XLFN.IFS(A1,1,TRUE,2))', 'U5': '=IF(TRUE,1,SUM(1,_xlfn.NOSUCHFUNCTION(A1:A3)))', 'U6': '=IF(A1,"good",nosuch.func(1))',
+    'U7': '=IF(A1>0,_xlfn.CONCAT("a","b"),_xlfn.NOPE())', 'U9': '=IF(A1,"good",@NOSUCH(1)+_xll.ADDIN.FUNC(2))',
     'T1': '=IF(1E-16,7,8)', 'T2': '=AND(1,A3)', 'T3': '=OR(0,A3)', 'T4': '=NOT(A3)', 'T5': '=IF(A3,"nz","z")', 'T6': '=NOT(A2)', 'T7': '=IF(-0.5,"nz","z")',
 }
 LOGIC_EXPECTED = {
     'B1': True, 'B2': False, 'B3': True, 'Z1': False, 'Z2': True, 'Z3': 'some', 'Z4': False, 'Z5': False,
     'L1': 1, 'L2': 2, 'L3': 5, 'L4': 'ok', 'L5': 't', 'L6': False, 'L7': 'blank is false', 'L8': 'in', 'L9': 'x',
+    'U1': 'good', 'U2': 'good', 'U3': False, 'U4': True, 'U5': 1, 'U6': 'good', 'U7': 'ab', 'U9': 'good',
     'T1': 7, 'T2': True, 'T3': True, 'T4': False, 'T5': 'nz', 'T6': True, 'T7': 'nz',
 }
 
@@ -311,7 +316,7 @@ def rule_7(ctx):
     hist_cells = {k: v for k, v in LOGIC_CELLS.items() if k[0] in 'AB' or k in ('Z1', 'Z2', 'Z3', 'L1', 'L2', 'L5', 'L6', 'T2', 'T5')}
     S.check_history(ctx, anchor, 'logic history', hist_cells, steps, cache={}, check_stored=False,
                     why='AND / OR / IF over ranges and cells see the current values of their precedents.')
-    ctx.floor(35, 'logic cells + history steps')
+    ctx.floor(43, 'logic cells + history steps')
 
 
 RULES = [
